@@ -530,7 +530,7 @@ func genDataCoreBit(rng *rand.Rand, tier string, emit func(string)) {
 				default:
 					o := strconv.FormatInt(off(k), 10)
 					note(k, o)
-					a = h("setbit", k, o, "0") // clearing bits, also on missing keys / segments
+					a = h("setbit", k, o, "0")                                                // clearing bits, also on missing keys / segments
 					if ov, err := strconv.ParseInt(o, 10, 64); err == nil && ov <= 16777216 { // the leader refuses larger offsets: nothing is applied then
 						chk = o + " 0"
 					}
